@@ -4,6 +4,7 @@
 //! None of the libc contracts promises success: a call may always be refused.
 use vstd::prelude::*;
 use crate::spec_protected::*;
+use crate::verif_types::BytesSpec;
 
 verus! {
 
@@ -42,6 +43,7 @@ pub assume_specification[ libc::mlock ](addr: *const std::ffi::c_void, len: usiz
 /// munlock(2)
 pub assume_specification[ libc::munlock ](addr: *const std::ffi::c_void, len: usize) -> (r: i32)
     ensures
+        munlock_called(addr as int, len as int),
         r == 0 ==> kernel_unlocked(addr as int, len as int),
 ;
 
@@ -196,6 +198,18 @@ pub fn shim_report(r: Result<(), std::io::Error>, fmt: &str) {
 #[verifier::external_body]
 pub fn shim_io_error_invalid_data(msg: &'static str) -> std::io::Error {
     std::io::Error::new(std::io::ErrorKind::InvalidData, msg)
+}
+
+/// R2 shim for `x.zeroize()` on a generic `A: Zeroize + Bytes` container.
+/// ASSUMPTION (zeroize crate): every byte the container still holds afterwards is 0; the length never grows
+/// (it stays the same for slices/arrays/HeapBytes/HeapByteArray, `Vec<u8>::zeroize` also clears).
+#[verifier::external_body]
+pub fn shim_zeroize_bytes<A: zeroize::Zeroize + crate::types::Bytes>(a: &mut A)
+    ensures
+        final(a).bview().len() <= old(a).bview().len(),
+        forall|i: int| 0 <= i < final(a).bview().len() ==> #[trigger] final(a).bview()[i] == 0u8,
+{
+    a.zeroize()
 }
 
 } // verus!
